@@ -64,7 +64,8 @@ def main(argv):
         for name, thunk in conversions(item):
             convs.append(((i, name), thunk))
     canonical = {}
-    for key, thunk in convs:
+    # "reverse": the same conversions, last one first - what ran earlier in the process must not matter
+    for key, thunk in (reversed(convs) if batch.get("order") == "reverse" else convs):
         canonical["%d:%s" % key] = run(thunk)
     mism = []
     for pi, perm in enumerate(batch.get("perms", [])):
